@@ -34,10 +34,13 @@ PROPS = {
         "level": "proof",
         "units": [
             {"kind": "verus", "unit": "tail"},
+            {"kind": "verus", "unit": "tailfwd"},
+            {"kind": "scan", "spec": "tca_sites"},
         ],
         "unreached": [
-            "RuntimeScope::eval (Call arm: when a TailCall is constructed) and the natives that forward the tail flag (iterator chains, macros over dyn Any)",
             "that the trampoline computes what ordinary recursion computes (needs a semantics of evaluation)",
+            "that a forwarded tail evaluation's result is returned unchanged by the carrier (the skeletons keep the evaluation calls and their flag, not the data flow of the result)",
+            "in the Call arm: that the callee is the local recursion cell (the `if let` conditions are dropped by the skeleton; only `tail_available` is kept)",
         ],
         "assumptions": ["contracts of from_template / eval / increment_call_limit / check_timeout as stated in tail.prelude.rs (ghost history)",
                         "an evaluation performs fewer than 2^64 consecutive tail calls"],
@@ -88,7 +91,7 @@ PROPS = {
             {"kind": "verus", "unit": "seq"},
         ],
         "unreached": [
-            "XSequence::{slice, chain, value_to_idx} (macros over dyn Any downcasts, Cow, ManagedXError: outside Verus' dialect; BigInt promotion closure makes them intractable for CBMC)",
+            "XSequence::{chain, value_to_idx}, get on Chain (partition_point), len on Chain/Map/Zip (macros over dyn Any downcasts, Cow, iterator chains: outside Verus' dialect; BigInt promotion closure makes them intractable for CBMC)",
             "every native builtin body (pop/insert/set/swap/...), Map/Zip representations (call the evaluator), include.rs",
         ],
         "assumptions": ["LazyBigint operations by the contracts unit V-int proves (canonical representation of the mathematical result)"],
@@ -108,6 +111,7 @@ PROPS = {
         "level": "proof",
         "units": [
             {"kind": "verus", "unit": "sort"},
+            {"kind": "verus", "unit": "runs"},
             {"kind": "verus", "unit": "fmt"},
             {"kind": "kani-mini", "crate": "sort", "harnesses": [
                 {"harness": "trysort::harness::insert_head_b5", "fn": "src/util/trysort.rs :: insert_head (unsafe, InsertionHole)",
@@ -115,7 +119,7 @@ PROPS = {
             ]},
         ],
         "unreached": [
-            "trysort::merge (Kani counterexamples did not replay natively: verifier imprecision) and the driver loops of try_sort (no CBMC verdict in 25 min)",
+            "trysort::merge (Kani counterexamples did not replay natively: verifier imprecision); of try_sort's driver only the two natural-run loops and `collapse` are under contract (the run reversal, the insertion extension and the merge loop are not)",
             "util/try_heap.rs, quickselect / n_largest / sorted (call the comparator through the evaluator)",
             "derived eq/hash/cmp/to_str of containers and the relational operators (add_dyn_func factories building code at compile time)",
             "the format-specifier grammar (regex) and the numeric formatting in builtin/{int,floats,str}.rs",
@@ -126,6 +130,7 @@ PROPS = {
         "level": "proof",
         "units": [
             {"kind": "verus", "unit": "int"},
+            {"kind": "verus", "unit": "intops"},
             {"kind": "kani-mini", "crate": "int", "harnesses": [
                 {"harness": "harness::" + h, "fn": "src/util/lazy_bigint.rs :: " + f, "timeout": 300}
                 for h, f in [
@@ -167,9 +172,9 @@ CLAIMS = {
     },
     "C07": {
         "engine": "vx+verus",
-        "technique": "contract-based deductive verification: Verus contract with a ghost call history on the real text of the trampoline arm of RuntimeScope::eval_func_with_values",
-        "text": "Narrow: the trampoline is proved, for every number of iterations, to evaluate the body in tail mode once per frame, to re-enter only on TailCall, never to let a TailCall escape to its caller, to build every frame on the caller's scope (no stack depth consumed), and to end in MaximumRecursion exactly when the number of consecutive tail self-calls exceeds the recursion limit.",
-        "note": "Where a TailCall is produced (eval's Call arm) and the natives that forward the tail flag are unreached; semantic equivalence with ordinary recursion is not decided. Dependencies by stated contracts with a ghost history.",
+        "technique": "contract-based deductive verification: Verus contract with a ghost call history on the real text of the trampoline; Verus preconditions on skeletons (R-skel) of the tail-flag carriers and of the evaluator's Call arm; site enumeration of the flag's uses",
+        "text": "The trampoline is proved, for every number of iterations, to evaluate the body in tail mode once per frame, to re-enter only on TailCall, never to let a TailCall escape to its caller, and to end in MaximumRecursion exactly when the number of consecutive tail self-calls exceeds the recursion limit. Every native that uses the tail flag (enumerated by scan) is proved, on a control-flow skeleton of its real body, to evaluate its documented selected argument with the caller's flag and every other argument in non-tail mode; the evaluator's Call arm constructs a TailCall only when a tail slot is available and hands the flag on to the callee.",
+        "note": "Semantic equivalence with ordinary recursion is not decided; the skeletons drop data flow. Dependencies of the trampoline by stated contracts with a ghost history.",
     },
     "C09": {
         "engine": "kani",
@@ -191,8 +196,8 @@ CLAIMS = {
     },
     "C15": {
         "engine": "vx+verus",
-        "technique": "contract-based deductive verification: Verus contracts on the match arms of XSequence::{len, get} for the Range representation, extracted from src/builtin/sequence.rs on every run",
-        "text": "Narrow: for the lazy Range representation, len is proved overflow-free and equal to the number of elements the range denotes for every (start, end, step) the constructor's guard admits, and get(i) is proved to be start + i*step as an exact integer; the count characterisation is a proved lemma.",
+        "technique": "contract-based deductive verification: Verus contracts on the match arms of XSequence::{len, get} for Range and Slice and on the body of XSequence::slice, extracted from src/builtin/sequence.rs on every run",
+        "text": "Narrow: for the lazy Range representation, len is proved overflow-free and equal to the number of elements the range denotes for every (start, end, step) the constructor's guard admits, and get(i) is proved to be start + i*step as an exact integer (the count characterisation is a proved lemma); XSequence::slice (after the downcast) is proved to return None exactly for the whole input, Empty exactly for an empty window, and otherwise a Slice that satisfies the representation invariant and addresses the original source of a sliced input (or nests when the absolute bounds are not representable); the index a Slice hands to its source is idx + start or an error when not representable.",
         "note": "Index arithmetic of one representation only; slicing/chaining composition, index normalisation and every native are listed as unreached in the evidence. LazyBigint by V-int's contracts.",
     },
     "C16": {
